@@ -50,6 +50,20 @@ def make_dir(rng, root):
                 os.utime(p, (mt, mt))
 
     fill(root, 0)
+    if rng.random() < 0.08:
+        # many folders (the count is not the depth): 320 sibling folders, some with a file, behind whatever else is there
+        bulk = os.path.join(root, "zz-bulk")
+        os.mkdir(bulk)
+        count[0] += 1
+        for i in range(320):
+            d = os.path.join(bulk, f"d{i:03d}")
+            os.mkdir(d)
+            count[0] += 1
+            if i % 7 == 0 or i > 300:
+                with open(os.path.join(d, "f.txt"), "wb") as fp:
+                    fp.write(b"y" * (i % 5))
+                os.utime(os.path.join(d, "f.txt"), (1_600_000_000 + i, 1_600_000_000 + i))
+                count[0] += 1
     if rng.random() < 0.4:
         # a second name for an existing file (hard link): still one node per directory entry
         files = [os.path.join(dp, f) for dp, dn, fn in os.walk(root) for f in fn]
